@@ -20,5 +20,5 @@ func TestC10(t *testing.T) {
 		"component-prefixes included), the same content uploaded under several names (aliases), uploads interleaved chunk by chunk, rotations; " +
 		"oracle: an object is returned / reported present under J only if a successful upload under a component-wise prefix of J exists; " +
 		"non-trivial = at least one block rotation; distinct by script hash")
-	stx.Main(run, model, "C10", []string{"C10", "C01"}, []string{"hier"}, 800, 16000)
+	stx.Main(run, model, "C10", []string{"C10", "C01"}, []string{"hier"}, 2500, 16000)
 }
